@@ -201,10 +201,9 @@ func (r *Reference) Set(t Tag, value string) error {
 	switch t {
 	case refNameTag:
 		if value == "*" {
-			r.name = ""
-			return nil
+			value = ""
 		}
-		r.name = value
+		return r.SetName(value)
 	case refLengthTag:
 		l, err := strconv.Atoi(value)
 		if err != nil {
